@@ -753,7 +753,13 @@ def cut_includes(rng, text, main_url, ncuts=None, places=("", "sub/", "../")):
             if target in resources:
                 continue
         indent = rng.choice(["", "  ", "\t"])
-        newlines = lines[:i] + ["%s%%include %s" % (indent, name)] + lines[j:]
+        # the argument of %include is subject to substitution like any value
+        written = name
+        if rng.random() < 0.15 and "$" not in name:
+            written = rng.choice(["$(ZCV_EMPTY)%s", "%s$(ZCV_EMPTY)", "$(Zcv_Mixed)/../%s"]) % name
+            if written.startswith("$(Zcv_Mixed)") and (place or " " in name):
+                written = "$(ZCV_EMPTY)" + name
+        newlines = lines[:i] + ["%s%%include %s" % (indent, written)] + lines[j:]
         resources[url] = "".join(l + "\n" for l in newlines)
         resources[target] = "".join(l + "\n" for l in frag)
         made.append((url, target, i, j))
